@@ -1,6 +1,7 @@
 import Rangers.Proofs.TrieIterBytes
 import Rangers.Proofs.TrieCompact
 import Rangers.Proofs.TrieYPRoot
+import Rangers.Proofs.TrieTotal
 import Rangers.Basic.Keccak
 /-!
 # C02 — the state trie root is the canonical Merkle-Patricia commitment of its content
@@ -42,6 +43,21 @@ theorem get_eq_lookup (t : Node) (k : Key) (ht : WFRoot t) (hk : ValidKey k) :
 
 /-- the exported API only ever produces terminated keys -/
 theorem api_keys_valid (k : Bytes) : ValidKey (keybytesToHex k) := validKey_keybytesToHex k
+
+/-- **totality**: on a minimal-form trie and a terminated key none of the branches in which the Go
+    code indexes out of range, fails a type assertion or reaches `panic("invalid node")` is
+    taken — by `tryGet`, `insert` or `delete`.  (The model is total; this shows no theorem here is
+    true thanks to a default value.) -/
+theorem no_panic (t : Node) (k : Key) (val : Bytes) (ht : WFRoot t) (hk : ValidKey k) :
+    getPanics t k = false ∧ insertPanics t k (.value val) = false ∧ deletePanics t k = false :=
+  ⟨no_panic_get t k ht hk, no_panic_insert val t k ht hk, no_panic_delete t k ht hk⟩
+
+/-- …hence no exported operation panics after any history -/
+theorem no_panic_after_history (ops : List Op) (k val : Bytes) :
+    getPanics (run ops) (keybytesToHex k) = false ∧
+    insertPanics (run ops) (keybytesToHex k) (.value val) = false ∧
+    deletePanics (run ops) (keybytesToHex k) = false :=
+  no_panic (run ops) (keybytesToHex k) val (represents_run ops).wf (validKey_keybytesToHex k)
 
 -- non-vacuity: a three-key trie with a key that is a prefix of another satisfies the hypotheses
 example : WFRoot (run [.upd [0x12] [1], .upd [0x12, 0x34] [2], .upd [0x13] [3]]) := (represents_run _).wf
